@@ -223,6 +223,7 @@ type c04XMLAlpha struct {
 	attrs []string // "" = absent
 	lead  []string // text before the children
 	trail []string // text after the children
+	ns    bool     // the root declares the prefixes p and q (names may then be p:a, q:a ...)
 }
 
 func c04XMLDocs(n, maxDepth int, al c04XMLAlpha, ids bool, visit func(doc string) bool) {
@@ -250,6 +251,9 @@ func c04XMLDocs(n, maxDepth int, al c04XMLAlpha, ids bool, visit func(doc string
 				v /= len(al.lead)
 				trail := al.trail[v%len(al.trail)]
 				b.WriteString("<" + name)
+				if i == 0 && al.ns {
+					b.WriteString(` xmlns:p="u" xmlns:q="v"`)
+				}
 				if ids {
 					fmt.Fprintf(&b, ` i="%d"`, i)
 				}
@@ -379,7 +383,7 @@ func init() {
 	core.Register(&core.Prop{
 		ID:    "C04",
 		Level: "exploration",
-		Rule:  "every XML document with up to N elements (all tree shapes to depth 4, names {a,b}, optional attribute k, text before/after the children, and for documents up to 2 (thorough 3) elements also comments, CDATA sections, processing instructions and line breaks there; once with a unique id attribute per element for exact node identity and once without) and every JSON value with up to N value nodes (scalars, arrays, objects over keys {a,b}, any nesting) x every target xpath = path in {/a,/a/b,/*/b,//b,/a//b,/a/*,//*,..} + final-step predicate on the candidate's own value/attribute/text/children/descendants (incl. literals containing brackets and the other quote character), and - on documents up to 3 (thorough 4) nodes - several filters on the final step and spelling variants (white space, nested brackets, self axis); the stream reader's delivered nodes (serialised at delivery time) must equal, in order, the outermost nodes selected on the fully loaded document that satisfy the full xpath; a case is distinct by (document, xpath), outcome class = (xpath, number of records)",
+		Rule:  "every XML document with up to N elements (all tree shapes to depth 4, names {a,b}, optional attribute k, text before/after the children, for documents up to 3 (thorough 4) elements also the same local name under different namespace prefixes (a, p:a, q:a) with prefixed target paths, and for documents up to 2 (thorough 3) elements also comments, CDATA sections, processing instructions and line breaks there; once with a unique id attribute per element for exact node identity and once without) and every JSON value with up to N value nodes (scalars, arrays, objects over keys {a,b}, any nesting) x every target xpath = path in {/a,/a/b,/*/b,//b,/a//b,/a/*,//*,..} + final-step predicate on the candidate's own value/attribute/text/children/descendants (incl. literals containing brackets and the other quote character), and - on documents up to 3 (thorough 4) nodes - several filters on the final step and spelling variants (white space, nested brackets, self axis); the stream reader's delivered nodes (serialised at delivery time) must equal, in order, the outermost nodes selected on the fully loaded document that satisfy the full xpath; a case is distinct by (document, xpath), outcome class = (xpath, number of records)",
 		Assumptions: []string{
 			"the whole-document tree is loaded by the same reader with target '.', so node construction itself is C08's subject, not C04's",
 			"xpaths are of the property's class: predicates only on the final step and only about the candidate itself",
@@ -447,6 +451,35 @@ func init() {
 					return
 				}
 			}
+			// same local name under different namespace prefixes (a, p:a, q:a as siblings and nested)
+			{
+				nsal := c04XMLAlpha{names: []string{"a", "p:a", "q:a"}, attrs: []string{"", "1"}, lead: []string{"", "1"}, trail: []string{""}, ns: true}
+				var nsx []c04XPath
+				for _, pth := range []string{"/a/a", "/a/p:a", "/p:a/q:a", "//a", "//p:a", "//q:a", "/*/p:a", "/*/*", "//*", "/a/*", "/p:a/*"} {
+					for _, q := range []string{"", "[.='1']", "[@k='1']", "[not(@k)]", "[a]", "[p:a]", "[not(*)]"} {
+						nsx = append(nsx, c04XPath{pth, q})
+					}
+				}
+				nmax := 3
+				if !c.Quick() {
+					nmax = 4
+				}
+				for n := 1; n <= nmax; n++ {
+					stop := false
+					for _, ids := range []bool{false, true} {
+						c04XMLDocs(n, 4, nsal, ids, func(doc string) bool {
+							if !run("xml", doc, nsx) {
+								stop = true
+								return false
+							}
+							return true
+						})
+					}
+					if stop {
+						return
+					}
+				}
+			}
 			jbase, jext := c04SplitXPaths("json")
 			for n := 1; n <= jmax; n++ {
 				stop := false
@@ -479,6 +512,18 @@ func init() {
 					}
 					return sig, detail
 				}
+			}
+			// xpaths of the namespace plan: path + one predicate, split at the first '['
+			if i := strings.Index(cs.XPath, "["); i != 0 {
+				xp := c04XPath{Path: cs.XPath}
+				if i > 0 {
+					xp = c04XPath{Path: cs.XPath[:i], Pred: cs.XPath[i:]}
+				}
+				sig, detail := c04Check(cs, xp)
+				if sig == "" {
+					detail = "streamed records equal the whole-document selection"
+				}
+				return sig, detail
 			}
 			return "harness:unknown-xpath", cs.XPath
 		},
